@@ -231,11 +231,15 @@ pub struct Assertion {
     pub expr: Located<Expression>,
     pub snapshot: SymbolSnapshot,
     pub failure_message: Option<String>,
+    /// The segment the assertion was assembled in
+    pub segment: Option<Identifier>,
 }
 
 pub struct Trace {
     pub exprs: Vec<Located<Expression>>,
     pub snapshot: SymbolSnapshot,
+    /// The segment the trace was assembled in
+    pub segment: Option<Identifier>,
 }
 
 impl CodegenContext {
@@ -669,6 +673,7 @@ impl CodegenContext {
                         expr: value.clone(),
                         snapshot: extracted_evaluator,
                         failure_message: interpolated_failure_message,
+                        segment: self.current_segment.clone(),
                     }));
                 }
             }
@@ -1368,6 +1373,7 @@ impl CodegenContext {
                     self.test_elements.push(TestElement::Trace(Trace {
                         exprs,
                         snapshot: extracted_evaluator,
+                        segment: self.current_segment.clone(),
                     }));
                 }
             }
